@@ -89,7 +89,8 @@ def h_decode_raw(ctx, n):
     e, u = call(CdsShortTimestamp.unpack, data)
     # the other two decoding entry points take the same octets and must agree with unpack()
     e2, u2 = call(CdsShortTimestamp.unpack_from_raw, data)
-    reader = CdsShortTimestamp(0x1234, 0x56789, init_dt_unix_stamp=False)
+    # a reader created without views (lazy), holding any earlier value - possibly the very value it is about to read
+    reader = CdsShortTimestamp(ctx.int("reader_days", 0, 65535), ctx.int("reader_ms", 0, MS_DAY - 1), init_dt_unix_stamp=False)
     if ctx.symbolic:     # the views are the subject of the 'views' case; see h_add
         from symx.timestub import OpaqueDT
         reader._calculate_date_time = lambda: setattr(reader, "_datetime", OpaqueDT(reader._unix_seconds, "branch-free recorder"))
@@ -105,6 +106,11 @@ def h_decode_raw(ctx, n):
     if e is None and e2 is None and e3 is None:
         ctx.holds("unpack_from_raw and read_from_raw return the same fields as unpack", sym_and(
             u2[0] == from_be(b[1:3]), u2[1] == from_be(b[3:7]), reader.ccsds_days == from_be(b[1:3]), reader.ms_of_day == from_be(b[3:7])))
+        e4, secs = call(reader.as_unix_seconds)
+        ctx.holds("after read_from_raw the unix-seconds view is the one of the fields just read (whatever the reader held before)",
+                  e4 is None and float_eq(ctx, secs, ref_unix_seconds(from_be(b[1:3]), from_be(b[3:7]))), exc_name(e4))
+        e5, dt = call(reader.as_datetime)
+        ctx.holds("after read_from_raw the datetime view exists", e5 is None and dt is not None, exc_name(e5))
     if e is not None:
         ctx.reach("refused")
         ctx.holds("refused only for a wrong P-field, with ValueError", sym_and(isinstance(e, ValueError), sym_not(good_p)), exc_name(e))
@@ -184,6 +190,30 @@ def h_add(ctx, dmax, lazy, smax=86399, msmax=MS_DAY - 1, smin=0):
         ctx.holds("datetime view follows the sum", abs((dt - want).total_seconds()) < 0.0005, "%s vs %s" % (dt, want))
 
 
+def h_add_twice(ctx, lazy):
+    """two additions to the same object: each result is integer arithmetic on the fields the object showed before it (no hidden
+    state is carried from one addition to the next); two objects with equal fields answer alike"""
+    days, ms = ctx.int("days", 0, 60000), ctx.int("ms", 0, MS_DAY - 1)
+    t, twin_obj = CdsShortTimestamp(days, ms, init_dt_unix_stamp=False), None
+    if ctx.symbolic:
+        from symx.timestub import OpaqueDT
+        t._calculate_date_time = lambda: setattr(t, "_datetime", OpaqueDT(t._unix_seconds, "branch-free recorder"))
+    if not lazy:
+        t._setup()
+    cur_d, cur_ms = days, ms
+    for i in (1, 2):
+        s, us = ctx.int("td%d_seconds" % i, 0, 86399), ctx.int("td%d_us" % i, 0, 999999)
+        total = cur_ms + s * 1000 + us // 1000
+        cur_d, cur_ms = cur_d + total // MS_DAY, total % MS_DAY
+        e, r = call(lambda: t + mk_timedelta(ctx, 0, s, us))
+        ctx.holds("addition %d == integer arithmetic on the fields shown before it" % i,
+                  e is None and sym_and(r.ccsds_days == cur_d, r.ms_of_day == cur_ms, t.ccsds_days == cur_d, t.ms_of_day == cur_ms), exc_name(e))
+        if e is not None:
+            return
+    fresh = CdsShortTimestamp(cur_d, cur_ms, init_dt_unix_stamp=False)
+    ctx.holds("the object equals a fresh stamp with the same fields and packs alike", sym_and(t == fresh, t.pack() == fresh.pack()))
+
+
 def mk_datetime(ctx, d, s, u):
     if ctx.symbolic:
         from symx.timestub import SymDT
@@ -221,6 +251,9 @@ def cases(tier):
                            must_reach=["reach:returned"],
                            bounds="all timestamps (%s), timedelta days 0..%d, seconds 0..86399, microseconds 0..999999" % (
                                "created with init_dt_unix_stamp=False" if lazy else "views initialised", dmax)))
+    for lazy in (False, True):
+        cs.append(Case("add-twice%s" % ("-lazy" if lazy else ""), "add", h_add_twice, dict(lazy=lazy), budget=1500,
+                       bounds="days 0..60000, all ms; two successive timedeltas of 0..86399 s + 0..999999 us on one object"))
     for sec in tier_pick(tier, (1, 2), (0, 1, 2, 3, 7, 60, 3600, 86399)):
         cs.append(Case("add-window-s%d" % sec, "add", h_add, dict(dmax=0, lazy=True, smin=sec, smax=sec, msmax=999), budget=1500,
                        must_reach=["reach:returned"],
